@@ -348,8 +348,24 @@ class LNest(LExpr):
     body: Annotated[LExpr, Dependent("level", lambda level: Inject(max(level - 1, 0)))]
 
 
+class LItem(ABC):
+    pass
+
+
+@dataclass
+class LCoin(LItem):
+    level: Annotated[int, IntRange(7, 9)]     # a field of the SAME NAME as the one values are handed down to, with a range of its own
+
+
+@dataclass
+class LBox(LExpr):
+    level: Annotated[int, IntRange(0, 3)]
+    item: LItem                                # a plain field: what was handed to the box is not meant for what is in it
+    more: list[LItem]
+
+
 def levels_grammar():
-    return extract_grammar([LLeaf, LNest], LExpr)
+    return extract_grammar([LLeaf, LNest, LBox, LCoin], LExpr)
 
 
 def level_violations(e, out=None) -> list:
@@ -361,6 +377,10 @@ def level_violations(e, out=None) -> list:
         if e.body.level != expected:
             out.append(f"LNest(level={e.level}) has a body with level={e.body.level}, the dependent refinement demands {expected}")
         level_violations(e.body, out)
+    if isinstance(e, LBox):
+        for c in [e.item] + list(e.more):
+            if not (type(c.level) is int and 7 <= c.level <= 9):
+                out.append(f"LCoin(level={c.level!r}) inside LBox(level={e.level}): outside its own range 7..9")
     return out
 
 
